@@ -3,12 +3,15 @@
 Runs the registered checks against every seeded change /tmp/seed_<Cxx>_out/m<i> (tools/try_seed.py) and stores the change with what
 detected it under /verif/seeded/<Cxx>-m<i>/ (patch.diff, demo.cpp, demo.sh, meta.json)."""
 import json, os, shutil, subprocess, sys, glob, datetime
+HERE = os.path.dirname(os.path.dirname(os.path.abspath(__file__)))
 
 prop, base, others = sys.argv[1], sys.argv[2], sys.argv[3:]
 src = "/tmp/seed_%s_out" % prop
 for d in sorted(glob.glob(src + "/m*")):
     i = os.path.basename(d)
-    r = subprocess.run(["python3", "/verif/tools/try_seed.py", d, base, prop] + others, stdout=subprocess.PIPE, stderr=subprocess.STDOUT, text=True)
+    if os.environ.get("SEED_ONLY") and i not in os.environ["SEED_ONLY"].split(","):
+        continue
+    r = subprocess.run(["python3", os.path.join(HERE, "tools", "try_seed.py"), d, base, prop] + others, stdout=subprocess.PIPE, stderr=subprocess.STDOUT, text=True)
     out = r.stdout
     res = {}
     for l in out.split("\n"):
@@ -27,6 +30,12 @@ for d in sorted(glob.glob(src + "/m*")):
     except Exception:
         meta = {"property": prop}
     det = [p for p, v in res.items() if v.get("rc") == 1 and any(x.startswith("VIOLATION") for x in v.get("lines", []))]
+    try:
+        old = json.load(open(os.path.join(dst, "meta.json")))
+        if "integrator_confirmation" in old:
+            meta["integrator_confirmation"] = old["integrator_confirmation"]
+    except Exception:
+        pass
     meta["base_commit"] = base
     meta["confirmed_by_integrator"] = "patch applied to a scratch worktree at %s; `tools/try_seed.py seeded/%s-%s %s %s` on %s" % (
         base, prop, i, base, " ".join([prop] + others), datetime.datetime.utcnow().strftime("%Y-%m-%d %H:%M UTC"))
